@@ -142,7 +142,7 @@ def render_manifest(sc):
         if st["vals"]:
             line += " |@ " + " ".join(st["vals"])
         L.append(line)
-        if st["pool"] and st["kind"] != "phony":
+        if st["pool"]:
             L.append("  pool = %s" % st["pool"])
         if st["generator"] and st.get("gen_on_build"):
             L.append("  generator = 1")        # a statement-level binding shadows the rule's
